@@ -320,10 +320,11 @@ def run_cases(ctx, cases):
 
 def run(ctx):
     ctx.make_overlay(need_kernel=True)
-    ctx.regen_all()
+    ctx.regen_all(needed=("py2v_samples.py",))  # Gen/SamplesGen.v: wrap_K, get_time_with_phase, get_t0, median_period as the source has them now
     ok = ctx.build_models(MODELS)
     if ok:
         ctx.build_props()
+        ctx.build_props("Props/C17g.vo")  # the generated row functions over the reals: same curve, K >= 0, omega in [0, 2 pi), phase at the returned time
     cases = gen_cases(ctx)
     n_eval = nt = 0
     try:
